@@ -16,6 +16,7 @@ import RsjProofs.Num
 import RsjProofs.NumToy
 import RsjProofs.Dec
 import RsjProofs.DecRound
+import RsjProofs.DecShortcut
 namespace Rsj.Num
 
 /-! ### producers -/
@@ -167,29 +168,75 @@ theorem C06_nearest_even_iff (num den b : Nat) (hden : 0 < den) :
   ⟨fun h => nearestEven_unique h (roundNE_spec num den hden),
    fun h => h ▸ roundNE_spec num den hden⟩
 
-/-- NOT PROVED in full (the two shortcuts of `roundDec` for exponents beyond ±400, taken so
-    that the driver never builds `10^(10^18)`, are justified on paper: `n ≥ 1, e > 400 ⇒
-    n·10^e ≥ 2^1024`, and `n·10^e < 10^-400 < 2^-1075 ⇒` rounds to 0; they are validated by
-    checks/c06.py against Python).  Full statement: -/
-def C06_roundDec_correct_full : Prop :=
-  ∀ (n : Nat) (e : Int), isNearestEven (decFrac n e).1 (decFrac n e).2 (roundDec n e) = true
+/-- **C06 roundDec_correct.** `roundDec n e` is the round-to-nearest-even image of the
+    rational `n · 10^e` for *every* `n` and `e` — including `n = 0` and the two shortcuts
+    taken for exponents beyond ±400 so that the driver never builds `10^(10^18)`:
+    `n ≥ 1, e > 400 ⇒ n·10^e ≥ 10^401 ≥ 2^1203 ≥ 2^1024` (the overflow marker), and
+    `e + numDigits n < -400 ⇒ n·10^e < 10^-401 ≤ 2^-1203 < 2^-1075` (rounds to 0).
+    Proof: `RsjProofs/DecShortcut.lean` (`8^k ≤ 10^k` and monotonicity; no large power is
+    evaluated). -/
+theorem C06_roundDec_correct (n : Nat) (e : Int) :
+    isNearestEven (decFrac n e).1 (decFrac n e).2 (roundDec n e) = true :=
+  roundDec_spec n e
 
-/-- Proved part: outside the two shortcuts `roundDec` is `roundNE` of the exact fraction. -/
-theorem C06_roundDec_correct_partial (n : Nat) (e : Int) (hn : n ≠ 0) (h1 : e ≤ 400)
+/-- With uniqueness: `roundDec n e` is *the* correctly rounded double of `n · 10^e`. -/
+theorem C06_roundDec_iff (n : Nat) (e : Int) (b : Nat) :
+    isNearestEven (decFrac n e).1 (decFrac n e).2 b = true ↔ b = roundDec n e :=
+  ⟨fun h => nearestEven_unique h (roundDec_spec n e), fun h => h ▸ roundDec_spec n e⟩
+
+/-- The overflow shortcut on its own: anything `≥ 2^1024` rounds to the overflow marker
+    (in particular every `n · 10^e` with `n ≥ 1`, `e > 400`). -/
+theorem C06_huge_overflows (n : Nat) (e : Int) (hn : n ≠ 0) (he : e > 400) :
+    roundDec n e = INF_BITS ∧ isNearestEven (n * 10 ^ e.toNat) 1 INF_BITS = true := by
+  have h : roundDec n e = INF_BITS := by unfold roundDec; simp only [hn, he, if_false, if_true]
+  refine ⟨h, ?_⟩
+  have := roundDec_spec n e
+  rw [h] at this
+  unfold decFrac at this
+  have hge : e ≥ 0 := by omega
+  simpa only [hge, if_true] using this
+
+/-- The underflow shortcut on its own. -/
+theorem C06_tiny_rounds_to_zero (n : Nat) (e : Int) (he : e + (numDigits n : Int) < -400) :
+    roundDec n e = 0 ∧ isNearestEven n (10 ^ (-e).toNat) 0 = true := by
+  have h : roundDec n e = 0 := by
+    unfold roundDec
+    by_cases hn : n = 0
+    · simp only [hn, if_true]
+    · have c1 : ¬ e > 400 := by omega
+      simp only [hn, c1, he, if_false, if_true]
+  refine ⟨h, ?_⟩
+  have := roundDec_spec n e
+  rw [h] at this
+  unfold decFrac at this
+  have hge : ¬ e ≥ 0 := by omega
+  simpa only [hge, if_false] using this
+
+/-- Outside the two shortcuts `roundDec` is literally `roundNE` of the exact fraction. -/
+theorem C06_roundDec_eq_roundNE (n : Nat) (e : Int) (hn : n ≠ 0) (h1 : e ≤ 400)
     (h2 : -400 ≤ e + (numDigits n : Int)) :
-    isNearestEven (decFrac n e).1 (decFrac n e).2 (roundDec n e) = true := by
+    roundDec n e = roundNE (decFrac n e).1 (decFrac n e).2 := by
   unfold roundDec decFrac
   have c1 : ¬ e > 400 := by omega
   have c2 : ¬ e + (numDigits n : Int) < -400 := by omega
   simp only [hn, c1, c2, if_false]
   by_cases he : e ≥ 0
   · simp only [he, if_true]
-    exact roundNE_spec _ _ (by omega)
   · simp only [he, if_false]
-    exact roundNE_spec _ _ (Nat.pow_pos (by omega))
+
+/-- Former proved part (statement unchanged; now a special case of `C06_roundDec_correct`). -/
+theorem C06_roundDec_correct_partial (n : Nat) (e : Int) (_hn : n ≠ 0) (_h1 : e ≤ 400)
+    (_h2 : -400 ≤ e + (numDigits n : Int)) :
+    isNearestEven (decFrac n e).1 (decFrac n e).2 (roundDec n e) = true :=
+  roundDec_spec n e
 
 /-! ### non-vacuity -/
 
+-- the shortcut boundaries: `1e401` overflows, `1e-402` (one digit: -402 + 1 < -400) rounds to 0,
+-- `1e-401` and `1e400` still go through `roundNE`
+example : roundDec 1 401 = INF_BITS ∧ roundDec 1 (-402) = 0 ∧ roundDec 0 (10 ^ 18) = 0 := by decide
+example : (401 : Int) > 400 ∧ (-402 : Int) + (numDigits 1 : Int) < -400 ∧
+    ¬ ((-401 : Int) + (numDigits 1 : Int) < -400) := by decide
 example : lexNumber "1_000.5e-3".toList = .ok ([1, 0, 0, 0, 5], -4, []) := by decide
 example : literalValue "1_000.5e-3".toList = (10005, -4) := by decide
 example : lexNumber "0.001+x".toList = .ok ([0, 0, 0, 1], -3, ['+', 'x']) := by decide
@@ -244,5 +291,15 @@ open Rsj.Dec in
 #print axioms C06_roundNE_correct
 open Rsj.Dec in
 #print axioms C06_nearest_even_iff
+open Rsj.Dec in
+#print axioms C06_roundDec_correct
+open Rsj.Dec in
+#print axioms C06_roundDec_iff
+open Rsj.Dec in
+#print axioms C06_huge_overflows
+open Rsj.Dec in
+#print axioms C06_tiny_rounds_to_zero
+open Rsj.Dec in
+#print axioms C06_roundDec_eq_roundNE
 open Rsj.Dec in
 #print axioms C06_roundDec_correct_partial
